@@ -43,7 +43,10 @@ def distinct_values(tname, n, salt=0):
         if tname == 'BOOL':
             out.append(bool((k + salt) % 2) if k % 3 else True)
         elif tname in ('REAL', 'LREAL'):
-            out.append(float(k * 1.5 + salt + 1))
+            # distinct, exactly representable in float32, and spread over signs and magnitudes (around 2**31 and 2**63, where integer
+            # arithmetic on a float would show, and small fractions)
+            e = (0, 31, -10, 63, 1, 40, 32, 64)[k % 8]
+            out.append(float(((k + salt) % 2000 + 1) * 2.0 ** e) * (-1 if (k // 8 + salt) % 3 == 1 else 1))
         else:
             lo, hi = gen.INT_RANGES[tname]
             out.append(lo + (k * 37 + salt * 11 + 1) % (hi - lo + 1))
